@@ -114,6 +114,8 @@ func checkC16(p *Program, r *Result) {
 	checkPyOffsets(p, r)
 	// Go-side conditions the Python readers / Python-written files depend on
 	r.rule("C16.o", "Go indexed reader: chunk slots own their bytes (Python writes uncompressed, overlapping chunks)", 2)
+	r.rule("C16.p", "Go writer: a length prefix is computed from the quantity the following loop emits", 2)
+	checkPrefixLoops(p, r, "C16.p", pkgMcap)
 	r.rule("C16.e", "Go writer: footer summary_start is 0 only when no summary record was written (Python readers locate the summary through it)", 1)
 	checkSlotOwnership(p, r, "C16.o")
 	spec := sinkSpec()
